@@ -29,6 +29,8 @@ import (
 
 	"github.com/anishathalye/porcupine"
 	"github.com/iotaledger/hive.go/kvstore"
+	"github.com/iotaledger/hive.go/kvstore/debug"
+	"github.com/iotaledger/hive.go/kvstore/flushkv"
 	"github.com/iotaledger/hive.go/kvstore/mapdb"
 	"verif/harness/internal/faultkv"
 	"verif/harness/internal/vf"
@@ -55,6 +57,7 @@ type initEnt struct {
 type caseRec struct {
 	Target string    `json:"target"`          // value | store
 	Codec  string    `json:"codec,omitempty"` // "" = fixed (8 bytes) | varlen (0 -> zero bytes, 1..255 -> one byte)
+	View   *viewRec  `json:"view,omitempty"`  // nil = the typed view is built directly on the fault-injecting wrapper of a root mapdb
 	Init   []initEnt `json:"init"`
 	Ops    []op      `json:"ops"`
 	Faults []int     `json:"faults"`          // 1-based fallible sites that fail
@@ -149,6 +152,12 @@ type runResult struct {
 
 	zeroLenWrites, noopWrites int // successful writes whose encoding is empty / equals the bytes already stored
 
+	// evidence of the view family
+	viewOps    map[string]int // steps executed through a typed view whose underlying KVStore has a NON-EMPTY realm, by operation
+	debugCalls int            // access callbacks of a debug wrapper in the stack
+	flushVoid  bool           // run ended (not judged further) at a failing Flush of a flush-on-write wrapper above the injector
+	voidView   bool           // the wrapper chain itself reported another realm than the chain of WithRealm/WithExtendedRealm calls asks for
+
 	wantTrace bool
 }
 
@@ -211,29 +220,173 @@ func opName(target string, o op) string {
 	return t + o.K
 }
 
+// ---------------------------------------------------------------- views: the typed layer over ANY KVStore
+//
+// A viewRec says on which KVStore the TypedStore / TypedValue is built: a stack of
+// wrappers over one root mapdb (the fault injector exactly once; the flush-on-write
+// and the debug wrapper below or above it) and a chain of WithRealm /
+// WithExtendedRealm calls applied at some level of that stack. The root store also
+// holds entries OUTSIDE the resulting realm ("siblings": parent realms, neighbouring
+// realms, the view's own keys without the realm in front) which no operation of the
+// typed view may touch.
+
+type realmStep struct {
+	Ext bool   `json:"ext,omitempty"` // WithExtendedRealm (append) instead of WithRealm (replace)
+	R   string `json:"r"`
+}
+
+type viewRec struct {
+	Layers   []string    `json:"layers,omitempty"`   // bottom-up: "fault" (exactly once), "flush", "debug"; empty = ["fault"]
+	StepsAt  int         `json:"steps_at,omitempty"` // the realm chain is applied on top of this many layers (0 = on the root mapdb itself)
+	Steps    []realmStep `json:"steps,omitempty"`
+	Siblings []initEnt   `json:"siblings,omitempty"` // root keys outside the realm (entries that start with the realm are ignored)
+}
+
+func (v *viewRec) layers() []string {
+	if v == nil || len(v.Layers) == 0 {
+		return []string{"fault"}
+	}
+	return v.Layers
+}
+
+// realmOf is the realm the chain of steps asks for.
+func (v *viewRec) realmOf() string {
+	r := ""
+	if v == nil {
+		return r
+	}
+	for _, s := range v.Steps {
+		if s.Ext {
+			r += s.R
+		} else {
+			r = s.R
+		}
+	}
+	return r
+}
+
+func (v *viewRec) shape() string {
+	if v == nil {
+		return "root"
+	}
+	var b strings.Builder
+	b.WriteString(strings.Join(v.layers(), "+"))
+	fmt.Fprintf(&b, "@%d:", v.StepsAt)
+	for _, s := range v.Steps {
+		if s.Ext {
+			b.WriteString("E")
+		} else {
+			b.WriteString("W")
+		}
+		fmt.Fprintf(&b, "%q", s.R)
+	}
+	return b.String()
+}
+
+func (v *viewRec) key() string {
+	if v == nil {
+		return ""
+	}
+	return fmt.Sprint(v.shape(), v.Siblings)
+}
+
+// world is everything a run needs besides the typed object.
+type world struct {
+	root  kvstore.KVStore   // the root mapdb (all realms)
+	inner kvstore.KVStore   // reference access to the view's realm: root.WithRealm(realm), no wrapper, no faults
+	st    kvstore.KVStore   // what the typed view is built on
+	realm string            // realm of st
+	sib   map[string][]byte // root entries outside the realm
+}
+
+func buildWorld(cr caseRec, in *faultkv.Injector, res *runResult) *world {
+	v := cr.View
+	w := &world{root: mapdb.NewMapDB(), realm: v.realmOf(), sib: map[string][]byte{}}
+	must := func(s kvstore.KVStore, err error) kvstore.KVStore {
+		if err != nil {
+			panic("harness: building the view failed: " + err.Error())
+		}
+		return s
+	}
+	layers := v.layers()
+	cur := w.root
+	for i := 0; i <= len(layers); i++ {
+		if v != nil && i == v.StepsAt {
+			for _, s := range v.Steps {
+				if s.Ext {
+					cur = must(cur.WithExtendedRealm([]byte(s.R)))
+				} else {
+					cur = must(cur.WithRealm([]byte(s.R)))
+				}
+			}
+		}
+		if i == len(layers) {
+			break
+		}
+		switch layers[i] {
+		case "fault":
+			cur = faultkv.Wrap(cur, in)
+		case "flush":
+			cur = flushkv.New(cur)
+		case "debug":
+			cur = debug.New(cur, func(debug.Command, ...[]byte) { res.debugCalls++ })
+		default:
+			panic("harness: unknown layer " + layers[i])
+		}
+	}
+	w.st = cur
+	if !bytes.Equal(cur.Realm(), []byte(w.realm)) {
+		res.voidView = true // the wrappers' realm bookkeeping is not this property's business
+	}
+	w.inner = w.root
+	if w.realm != "" {
+		w.inner = must(w.root.WithRealm([]byte(w.realm)))
+	}
+	if v != nil {
+		cd := codecOf(cr)
+		for _, e := range v.Siblings {
+			if e.Key == "" || strings.HasPrefix(e.Key, w.realm) {
+				continue
+			}
+			b := cd.enc(e.V)
+			if e.State == "garbage" {
+				b = garbageBytes
+			}
+			w.root.Set([]byte(e.Key), b)
+			w.sib[e.Key] = append([]byte(nil), b...)
+		}
+	}
+	return w
+}
+
 func runCase(cr caseRec, trace bool) runResult {
 	plan := map[int]faultkv.Action{}
 	for _, s := range cr.Faults {
 		plan[s] = faultkv.Fail
 	}
-	inner := mapdb.NewMapDB()
+	in := faultkv.NewInjector(plan, trace)
+	var res runResult
+	res.wantTrace = trace
+	w := buildWorld(cr, in, &res)
+	if res.voidView {
+		return res
+	}
 	model := map[string][]byte{}
 	for _, e := range cr.Init {
 		b := codecOf(cr).enc(e.V)
 		if e.State == "garbage" {
 			b = garbageBytes
 		}
-		inner.Set([]byte(e.Key), b)
+		w.inner.Set([]byte(e.Key), b)
 		model[e.Key] = append([]byte(nil), b...)
 	}
-	in := faultkv.NewInjector(plan, trace)
-	st := faultkv.Wrap(inner, in)
-	var res runResult
-	res.wantTrace = trace
+	if w.realm != "" {
+		res.viewOps = map[string]int{}
+	}
 	if cr.Target == "value" {
-		runValue(cr, in, st, inner, model, &res)
+		runValue(cr, in, w, model, &res)
 	} else {
-		runStore(cr, in, st, inner, model, &res)
+		runStore(cr, in, w, model, &res)
 	}
 	res.sites = in.Sites()
 	res.kinds = in.Kinds()
@@ -241,34 +394,63 @@ func runCase(cr caseRec, trace bool) runResult {
 	return res
 }
 
-// rawDiff compares the whole raw store with the model.
-func rawDiff(inner kvstore.KVStore, model map[string][]byte) string {
+// rawDiff compares the WHOLE root store (all realms) with the model of the view's
+// realm plus the entries outside it. The first member of the result is the class:
+// "store-diverged" (inside the realm) or "other-realm-touched".
+func rawDiff(w *world, model map[string][]byte) (string, string) {
 	n := 0
-	diff := ""
-	inner.Iterate(kvstore.EmptyPrefix, func(k, v []byte) bool {
+	cls, diff := "", ""
+	w.root.Iterate(kvstore.EmptyPrefix, func(k, v []byte) bool {
 		n++
-		m, ok := model[string(k)]
+		if !strings.HasPrefix(string(k), w.realm) {
+			m, ok := w.sib[string(k)]
+			if !ok {
+				cls, diff = "other-realm-touched", fmt.Sprintf("underlying store now holds key %q = %x OUTSIDE the realm %q of the KVStore the typed view was built on", k, v, w.realm)
+				return false
+			}
+			if !bytes.Equal(m, v) {
+				cls, diff = "other-realm-touched", fmt.Sprintf("entry %q outside the realm %q was changed from %x to %x", k, w.realm, m, v)
+				return false
+			}
+			return true
+		}
+		rel := string(k[len(w.realm):])
+		m, ok := model[rel]
 		if !ok {
-			diff = fmt.Sprintf("raw store holds key %q = %x which the model does not", k, v)
+			cls, diff = "store-diverged", fmt.Sprintf("raw store holds key %q = %x (realm %q) which the model does not", rel, v, w.realm)
 			return false
 		}
 		if !bytes.Equal(m, v) {
-			diff = fmt.Sprintf("raw store holds %q = %x, model (last successfully written value) = %x", k, v, m)
+			cls, diff = "store-diverged", fmt.Sprintf("raw store holds %q = %x, model (last successfully written value) = %x", rel, v, m)
 			return false
 		}
 		return true
 	})
-	if diff == "" && n != len(model) {
+	if diff == "" && n != len(model)+len(w.sib) {
+		for k := range w.sib {
+			if h, _ := w.root.Has([]byte(k)); !h {
+				return "other-realm-touched", fmt.Sprintf("entry %q outside the realm %q of the KVStore the typed view was built on was removed", k, w.realm)
+			}
+		}
 		for k := range model {
-			if h, _ := inner.Has([]byte(k)); !h {
-				return fmt.Sprintf("raw store lost key %q that the model holds", k)
+			if h, _ := w.root.Has([]byte(w.realm + k)); !h {
+				return "store-diverged", fmt.Sprintf("raw store lost key %q (realm %q) that the model holds", k, w.realm)
 			}
 		}
 	}
-	return diff
+	return cls, diff
 }
 
-func runValue(cr caseRec, in *faultkv.Injector, st kvstore.KVStore, inner kvstore.KVStore, model map[string][]byte, res *runResult) {
+// flushFault handles a failing Flush issued by a flush-on-write wrapper that sits above the
+// injector: the write below it has been applied already, so which state is "right" is the
+// wrapper's semantics, not the typed view's. The error must still reach the caller; the run
+// ends there without a verdict on the state.
+func flushFault(fired []faultkv.Fired) bool {
+	return len(fired) > 0 && fired[0].Kind == "store.Flush"
+}
+
+func runValue(cr caseRec, in *faultkv.Injector, w *world, model map[string][]byte, res *runResult) {
+	st, inner := w.st, w.inner
 	cd := codecOf(cr)
 	enc := func(v int64) ([]byte, error) {
 		if err := in.FailHere("enc.value"); err != nil {
@@ -358,6 +540,16 @@ func runValue(cr caseRec, in *faultkv.Injector, st kvstore.KVStore, inner kvstor
 		}
 		if pan != "" {
 			bad("panic", "panicked: "+pan)
+			return
+		}
+		if res.viewOps != nil {
+			res.viewOps[name]++
+		}
+		if flushFault(fired) {
+			if err == nil {
+				bad("error-not-reported", fmt.Sprintf("the Flush of the flush-on-write store below the typed view failed at site %d but the call returned err=nil", fired[0].Site))
+			}
+			res.flushVoid = true
 			return
 		}
 		state := "absent"
@@ -482,8 +674,8 @@ func runValue(cr caseRec, in *faultkv.Injector, st kvstore.KVStore, inner kvstor
 		if res.viol != nil {
 			return
 		}
-		if d := rawDiff(inner, model); d != "" {
-			bad("store-diverged", d)
+		if cls, d := rawDiff(w, model); d != "" {
+			bad(cls, d)
 			return
 		}
 	}
@@ -494,7 +686,8 @@ type kvp struct {
 	v int64
 }
 
-func runStore(cr caseRec, in *faultkv.Injector, st kvstore.KVStore, inner kvstore.KVStore, model map[string][]byte, res *runResult) {
+func runStore(cr caseRec, in *faultkv.Injector, w *world, model map[string][]byte, res *runResult) {
+	st, inner := w.st, w.inner
 	cd := codecOf(cr)
 	var valueCodecCalls int // invocations of the value codec (evidence only, never a verdict)
 	ts := kvstore.NewTypedStore[string, int64](st,
@@ -636,6 +829,16 @@ func runStore(cr caseRec, in *faultkv.Injector, st kvstore.KVStore, inner kvstor
 			bad("panic", "panicked: "+pan)
 			return
 		}
+		if res.viewOps != nil {
+			res.viewOps[name]++
+		}
+		if flushFault(fired) {
+			if err == nil {
+				bad("error-not-reported", fmt.Sprintf("the Flush of the flush-on-write store below the typed view failed at site %d but the call returned err=nil", fired[0].Site))
+			}
+			res.flushVoid = true
+			return
+		}
 		isPrefix := func() bool {
 			if len(cbs) > len(exp) {
 				return false
@@ -746,8 +949,8 @@ func runStore(cr caseRec, in *faultkv.Injector, st kvstore.KVStore, inner kvstor
 		if res.viol != nil {
 			return
 		}
-		if d := rawDiff(inner, model); d != "" {
-			bad("store-diverged", d)
+		if cls, d := rawDiff(w, model); d != "" {
+			bad(cls, d)
 			return
 		}
 	}
@@ -863,12 +1066,237 @@ func genStoreCase(rng *rand.Rand) caseRec {
 	return cr
 }
 
+// ---------------------------------------------------------------- generation of views
+
+var layerStacks = [][]string{
+	{"fault"},
+	{"flush", "fault"}, {"fault", "flush"},
+	{"debug", "fault"}, {"fault", "debug"},
+	{"flush", "debug", "fault"}, {"fault", "debug", "flush"},
+}
+
+// realm pieces: prefixes of / equal to the encoded keys of the cases ("a", "ab", "b", "tv", "a!"),
+// unrelated ones, a zero byte, and the empty piece (a no-op extension / a reset to the root).
+var realmPieces = []string{"a", "b", "ab", "t", "tv", "v", "x", "\x00", "a!", ""}
+
+// siblingKeys lists root keys that are NOT inside realm r: the view's own keys without the realm,
+// every proper prefix of the realm (parent realms) alone and extended, and the neighbours that
+// differ from the realm in its last byte.
+func siblingKeys(r string) []string {
+	if r == "" {
+		return nil
+	}
+	c := []string{"a", "ab", "b", "tv", "a!", "\x00", "z"}
+	for i := 1; i < len(r); i++ {
+		c = append(c, r[:i], r[:i]+"~", r[:i]+"a")
+	}
+	last := r[len(r)-1]
+	c = append(c, r[:len(r)-1]+string(rune(last+1)), r[:len(r)-1]+string(rune(last+1))+"a")
+	if last > 0 {
+		c = append(c, r[:len(r)-1]+string(rune(last-1))+"b")
+	}
+	seen := map[string]bool{}
+	var out []string
+	for _, k := range c {
+		if k == "" || strings.HasPrefix(k, r) || seen[k] {
+			continue
+		}
+		seen[k] = true
+		out = append(out, k)
+	}
+	return out
+}
+
+func genView(rng *rand.Rand, codec string) *viewRec {
+	v := &viewRec{}
+	if rng.Intn(5) < 2 {
+		v.Layers = layerStacks[0]
+	} else {
+		v.Layers = layerStacks[1+rng.Intn(len(layerStacks)-1)]
+	}
+	v.StepsAt = rng.Intn(len(v.Layers) + 1)
+	n := 1 + rng.Intn(3)
+	for i := 0; i < n; i++ {
+		v.Steps = append(v.Steps, realmStep{Ext: rng.Intn(2) == 0, R: realmPieces[rng.Intn(len(realmPieces))]})
+	}
+	if v.realmOf() == "" && rng.Intn(4) != 0 {
+		v.Steps = append(v.Steps, realmStep{Ext: rng.Intn(2) == 0, R: realmPieces[rng.Intn(5)]})
+	}
+	for _, k := range siblingKeys(v.realmOf()) {
+		if rng.Intn(2) == 0 {
+			e := initEnt{Key: k, State: "present", V: genVal(rng, codec)}
+			if rng.Intn(4) == 0 {
+				e = initEnt{Key: k, State: "garbage"}
+			}
+			v.Siblings = append(v.Siblings, e)
+		}
+	}
+	return v
+}
+
+var viewPrefixes = []string{"", "a", "b", "ab"}
+
+// genViewStoreCase: a TypedStore history as in genStoreCase, with the whole-store operations
+// (Clear, DeletePrefix, Iterate, IterateKeys - also with the realm itself as the prefix) more frequent.
+func genViewStoreCase(rng *rand.Rand) caseRec {
+	cr := genStoreCase(rng)
+	cr.View = genView(rng, cr.Codec)
+	pfx := func() string {
+		if rng.Intn(5) == 0 {
+			return cr.View.realmOf()
+		}
+		return viewPrefixes[rng.Intn(len(viewPrefixes))]
+	}
+	for i := range cr.Ops {
+		if rng.Intn(5) != 0 {
+			continue
+		}
+		switch rng.Intn(4) {
+		case 0:
+			cr.Ops[i] = op{K: "clear"}
+		case 1:
+			cr.Ops[i] = op{K: "delp", Prefix: pfx()}
+		case 2:
+			cr.Ops[i] = op{K: "iter", Prefix: pfx(), Stop: rng.Intn(3), Back: rng.Intn(2) == 0}
+		case 3:
+			cr.Ops[i] = op{K: "iterk", Prefix: pfx(), Stop: rng.Intn(3), Back: rng.Intn(2) == 0}
+		}
+	}
+	return cr
+}
+
+// matrixViews: a fixed list of realm chains x layer stacks x the level at which the chain is applied.
+func matrixViews() []*viewRec {
+	chains := [][]realmStep{
+		{{R: "a"}}, {{R: "ab"}}, {{R: "t"}}, {{R: "\x00"}},
+		{{R: "a"}, {Ext: true, R: "b"}}, {{R: "x"}, {R: "b"}}, {{Ext: true, R: "t"}, {Ext: true, R: "v"}},
+		{{R: "a"}, {Ext: true, R: ""}}, {{R: "b"}, {Ext: true, R: "a"}, {Ext: true, R: "!"}},
+		{}, // the root itself (empty realm) under every wrapper stack
+	}
+	var out []*viewRec
+	for _, ch := range chains {
+		for _, ls := range layerStacks {
+			for at := 0; at <= len(ls); at++ {
+				if len(ch) == 0 && at > 0 {
+					continue
+				}
+				v := &viewRec{Layers: ls, StepsAt: at, Steps: ch}
+				for i, k := range siblingKeys(v.realmOf()) {
+					e := initEnt{Key: k, State: "present", V: int64(40 + i)}
+					if i%5 == 4 {
+						e = initEnt{Key: k, State: "garbage"}
+					}
+					v.Siblings = append(v.Siblings, e)
+				}
+				out = append(out, v)
+			}
+		}
+	}
+	return out
+}
+
+// viewPart: the typed views over KVStores other than a bare root store.
+func viewPart(c *vf.Ctx, workers, chunk, pairs int) {
+	// (3) matrix: every view of matrixViews x every single TypedStore operation (followed by a full
+	// iteration) from a fixed populated state, and every TypedValue history of length <= 2
+	views := matrixViews()
+	var cases []caseRec
+	full := []initEnt{{Key: "a", State: "present", V: 1}, {Key: "ab", State: "present", V: 2}, {Key: "b", State: "present", V: 3}}
+	for _, v := range views {
+		r := v.realmOf()
+		var single []op
+		single = append(single, op{K: "clear"}, op{K: "kvs"})
+		pf := append([]string{}, viewPrefixes...)
+		if r != "" && r != "a" && r != "b" && r != "ab" {
+			pf = append(pf, r)
+		}
+		for _, p := range pf {
+			single = append(single, op{K: "delp", Prefix: p})
+			for _, back := range []bool{false, true} {
+				for _, stop := range []int{0, 1} {
+					single = append(single, op{K: "iter", Prefix: p, Back: back, Stop: stop}, op{K: "iterk", Prefix: p, Back: back, Stop: stop})
+				}
+			}
+		}
+		for _, k := range storeKeys {
+			single = append(single, op{K: "get", Key: k}, op{K: "has", Key: k}, op{K: "set", Key: k, V: 77}, op{K: "del", Key: k})
+		}
+		single = append(single, op{K: "set", Key: "c", V: 78}, op{K: "get", Key: "c"}, op{K: "has", Key: "c"}, op{K: "del", Key: "c"})
+		for _, o := range single {
+			cases = append(cases, caseRec{Target: "store", View: v, Init: full, Ops: []op{o, {K: "iter"}, {K: "has", Key: "b"}}})
+		}
+		for _, init := range valueInits() {
+			for _, k1 := range valueKinds {
+				o1 := op{K: k1}
+				if k1 == "set" {
+					o1.V = 10
+				}
+				cases = append(cases, caseRec{Target: "value", View: v, Init: init, Ops: []op{o1, {K: "get"}}})
+				if len(v.layers()) > 2 {
+					continue
+				}
+				for _, k2 := range valueKinds {
+					o2 := op{K: k2}
+					if k2 == "set" {
+						o2.V = 20
+					}
+					cases = append(cases, caseRec{Target: "value", View: v, Init: init, Ops: []op{o1, o2, {K: "has"}}})
+				}
+			}
+		}
+	}
+	note := func(cr caseRec) {
+		c.Distinct("view_shapes", cr.View.shape())
+		c.Distinct("view_realms", cr.View.realmOf())
+		if cr.View.realmOf() != "" {
+			c.Count("view_histories_nonempty_realm", 1)
+		}
+		if len(cr.View.Siblings) > 0 {
+			c.Count("view_histories_with_entries_outside_the_realm", 1)
+		}
+		if len(cr.View.layers()) > 1 {
+			c.Count("view_histories_over_flush_or_debug_wrapper", 1)
+		}
+	}
+	vf.Parallel((len(cases)+chunk-1)/chunk, workers, func(w int) {
+		st := &stats{ctx: map[string]int{}}
+		for i := w * chunk; i < (w+1)*chunk && i < len(cases); i++ {
+			note(cases[i])
+			enumerate(c, st, cases[i], nil, 0)
+		}
+		merge(c, st)
+	})
+	c.Count("view_histories_matrix", len(cases))
+
+	// (4) seeded histories over seeded views
+	n := c.Pick(12000, 600000)
+	vf.Parallel((n+chunk-1)/chunk, workers, func(w int) {
+		rng := c.Rand(fmt.Sprintf("viewhist/%d", w))
+		st := &stats{ctx: map[string]int{}}
+		for i := w * chunk; i < (w+1)*chunk && i < n; i++ {
+			var cr caseRec
+			if rng.Intn(3) == 0 {
+				cr = genValueCase(rng)
+				cr.View = genView(rng, cr.Codec)
+			} else {
+				cr = genViewStoreCase(rng)
+			}
+			note(cr)
+			enumerate(c, st, cr, rng, pairs)
+		}
+		merge(c, st)
+	})
+	c.Count("view_histories_seeded", n)
+}
+
 type stats struct {
 	runs, faultRuns, fired, checks, histories int
 	zeroLen, noop                             int
 	keysOnly, vcInKeysOnly                    int
 	ctx                                       map[string]int
 	viols                                     []pending
+
+	viewRuns, viewSteps, debugCalls, flushVoid, voidView int
 }
 
 type pending struct {
@@ -878,7 +1306,7 @@ type pending struct {
 
 func caseHash(cr caseRec, fault int) uint64 {
 	h := fnv.New64a()
-	fmt.Fprintf(h, "%s|%s|%v|%v|%d", cr.Target, cr.Codec, cr.Init, cr.Ops, fault)
+	fmt.Fprintf(h, "%s|%s|%v|%v|%d|%s", cr.Target, cr.Codec, cr.Init, cr.Ops, fault, cr.View.key())
 	return h.Sum64()
 }
 
@@ -892,6 +1320,20 @@ func record(st *stats, r runResult, cr caseRec) {
 	st.noop += r.noopWrites
 	for _, x := range r.ctx {
 		st.ctx[x]++
+	}
+	if cr.View != nil {
+		st.viewRuns++
+	}
+	for k, n := range r.viewOps {
+		st.ctx["viewop:"+k] += n
+		st.viewSteps += n
+	}
+	st.debugCalls += r.debugCalls
+	if r.flushVoid {
+		st.flushVoid++
+	}
+	if r.voidView {
+		st.voidView++
 	}
 	if r.viol != nil && len(st.viols) < 100 {
 		if r.trace == nil {
@@ -959,7 +1401,16 @@ func merge(c *vf.Ctx, st *stats) {
 	c.Count("keys_only_ops", st.keysOnly)
 	c.Count("value_codec_calls_inside_keys_only_ops", st.vcInKeysOnly)
 	c.Count("noop_writes_same_bytes", st.noop)
+	c.Count("view_runs", st.viewRuns)
+	c.Count("view_steps_nonempty_realm", st.viewSteps)
+	c.Count("view_debug_wrapper_callbacks", st.debugCalls)
+	c.Count("view_flush_fault_runs_not_judged", st.flushVoid)
+	c.Count("view_realm_mismatch_runs_not_judged", st.voidView)
 	for k, v := range st.ctx {
+		if strings.HasPrefix(k, "viewop:") {
+			c.Count(k, v)
+			continue
+		}
 		c.Count("fault:"+k, v)
 		c.Distinct("fault_contexts", k)
 	}
@@ -1032,6 +1483,8 @@ func sequentialPart(c *vf.Ctx) {
 		merge(c, st)
 	})
 	c.Count("histories_seeded", n)
+
+	viewPart(c, workers, chunk, pairs)
 
 	// report shortest reproducer first
 	sort.SliceStable(allViols, func(a, b int) bool {
@@ -1404,7 +1857,7 @@ func run(c *vf.Ctx) {
 		replay(c)
 		return
 	}
-	c.SetRule("sequential: a history (TypedValue: all of length <= 4 (quick) / 5 (thorough) plus seeded ones of length 1-8; TypedStore: seeded, length 1-8 over every exported method (Get, Has, Set, Delete, Iterate, IterateKeys, DeletePrefix, Clear, KVStore) plus raw writes behind the typed layer, three keys sharing prefixes, raw entries absent/present/undecodable value/undecodable key/both) is run fault-free to learn its N fallible sites (store calls and codec calls in one numbering), then N times with site i failing (plus seeded pairs of sites); one evaluation = one such run; distinct_nontrivial = distinct (history, failing site) in which the fault actually fired; fault_contexts = distinct (method, kind of failing site). concurrent: one evaluation = one operation executed while 2-8 goroutines share one TypedValue")
+	c.SetRule("sequential: a history (TypedValue: all of length <= 4 (quick) / 5 (thorough) plus seeded ones of length 1-8; TypedStore: seeded, length 1-8 over every exported method (Get, Has, Set, Delete, Iterate, IterateKeys, DeletePrefix, Clear, KVStore) plus raw writes behind the typed layer, three keys sharing prefixes, raw entries absent/present/undecodable value/undecodable key/both) is run fault-free to learn its N fallible sites (store calls and codec calls in one numbering), then N times with site i failing (plus seeded pairs of sites); one evaluation = one such run; distinct_nontrivial = distinct (history, failing site) in which the fault actually fired; fault_contexts = distinct (method, kind of failing site). views: the same histories with the typed object built on a KVStore other than a bare root store - a stack of {fault injector, flush-on-write wrapper, debug wrapper} over one root mapdb with a chain of 0-4 WithRealm/WithExtendedRealm calls applied at any level of the stack (realm pieces are prefixes of / equal to the encoded keys, unrelated, a zero byte, empty), the root store also holding entries outside the realm; a fixed matrix (10 realm chains x 7 stacks x every level, every single TypedStore operation incl. every prefix/direction/stop, all TypedValue histories of length <= 2) plus seeded ones; after every step the WHOLE root store is compared with model + outside entries; view_shapes = distinct (stack, level, chain). concurrent: one evaluation = one operation executed while 2-8 goroutines share one TypedValue")
 	sequentialPart(c)
 	c.SetExhaustive(false)
 	for _, race := range []bool{false, true} {
@@ -1436,10 +1889,20 @@ func run(c *vf.Ctx) {
 	c.Require("keys_only_ops", 10000)
 	c.Require("zero_length_encodings_written", 1000)
 	c.Require("noop_writes_same_bytes", 1000)
+	c.Require("view_histories_nonempty_realm", 10000)
+	c.Require("view_histories_with_entries_outside_the_realm", 8000)
+	c.Require("view_histories_over_flush_or_debug_wrapper", 5000)
+	c.Require("view_steps_nonempty_realm", 100000)
+	c.Require("view_shapes", 200)
+	for _, m := range []string{"TypedStore.Clear", "TypedStore.DeletePrefix", "TypedStore.Iterate", "TypedStore.IterateKeys", "TypedStore.Get", "TypedStore.Has", "TypedStore.Set", "TypedStore.Delete",
+		"TypedValue.Get", "TypedValue.Has", "TypedValue.Set", "TypedValue.Delete", "TypedValue.Compute(inc)"} {
+		c.Require("viewop:"+m, 1000)
+	}
 	c.Require("compute_only_calls", 10000)
 	c.Require("mixed_ops", 5000)
 	c.Require("overlapping_ops", 1000)
 	c.Require("race_children", 1)
+	c.Assume("mapdb's realm views (WithRealm) address exactly the root keys that start with the realm; they serve as the reference access to the realm of a view")
 	c.Assume("mapdb itself never fails and applies each call atomically; faultkv fails a store call before applying it")
 	c.Assume("porcupine v1.3.0 decides linearizability of the recorded histories correctly; ticks come from one atomic counter")
 }
